@@ -1,6 +1,8 @@
 import PkgModel.Generated.PySrc
 import PkgModel.Version
 import PkgProofs.Lemmas.PyRt
+import PkgProofs.Lemmas.PyRx
+import PkgProofs.Lemmas.SrcRobust
 /-!
 # Translated source of `packaging.version` = the model
 -/
@@ -25,6 +27,26 @@ theorem int_digits (d : Str) (h1 : d ≠ []) (h2 : d.all isDigit = true) : int_ 
     | cons c cs => simpa [isDigitStr] using h2
   simp [int_, parseInt, this]
 
+/-- closes a goal about a lower-cased letter `l` by splitting on which alias it is (robust to how the source tests it:
+`if`/`elif` chain, `in [...]`, look-up in a constant table); `hd` evaluates `int(number)` -/
+macro "letter_cases " l:ident " with " hd:term : tactic => `(tactic| (
+  by_cases h1 : $l = ofString "alpha"
+  · subst h1; simp (config := {decide := true}) [normLetter, const_dict_get_cons_str, const_dict_get_nil, contains, $hd:term]
+  by_cases h2 : $l = ofString "beta"
+  · subst h2; simp (config := {decide := true}) [normLetter, const_dict_get_cons_str, const_dict_get_nil, contains, $hd:term]
+  by_cases h3 : $l = ofString "c"
+  · subst h3; simp (config := {decide := true}) [normLetter, const_dict_get_cons_str, const_dict_get_nil, contains, $hd:term]
+  by_cases h4 : $l = ofString "pre"
+  · subst h4; simp (config := {decide := true}) [normLetter, const_dict_get_cons_str, const_dict_get_nil, contains, $hd:term]
+  by_cases h5 : $l = ofString "preview"
+  · subst h5; simp (config := {decide := true}) [normLetter, const_dict_get_cons_str, const_dict_get_nil, contains, $hd:term]
+  by_cases h6 : $l = ofString "rev"
+  · subst h6; simp (config := {decide := true}) [normLetter, const_dict_get_cons_str, const_dict_get_nil, contains, $hd:term]
+  by_cases h7 : $l = ofString "r"
+  · subst h7; simp (config := {decide := true}) [normLetter, const_dict_get_cons_str, const_dict_get_nil, contains, $hd:term]
+  simp [normLetter, const_dict_get_cons_str, const_dict_get_nil, contains, Ne.symm h1, Ne.symm h2, Ne.symm h3, Ne.symm h4, Ne.symm h5,
+    Ne.symm h6, Ne.symm h7, h1, h2, h3, h4, h5, h6, h7, $hd:term]))
+
 /-- `_parse_letter_version(letter, number)`: `letter` is `None` or any string, `number` `None` or a digit string -/
 theorem _parse_letter_version_eq_model (letter number : Option Str) (hn : NumText number) :
     Gen.PySrc._parse_letter_version (ofOptStr letter) (ofOptStr number) =
@@ -39,15 +61,16 @@ theorem _parse_letter_version_eq_model (letter number : Option Str) (hn : NumTex
     · simp [ofOptStr, parseLetterVersion, ofLetterNum]
     · simp [ofOptStr, parseLetterVersion, ofLetterNum]
     · simp [ofOptStr, parseLetterVersion, ofLetterNum, int_digits _ hn.1 hn.2]
-  · rcases number with _ | d
-    · simp only [ofOptStr, parseLetterVersion, ofLetterNum, str_lower, contains, int_, normLetter]
-      simp
-      repeat' split
-      all_goals simp_all
-    · simp only [ofOptStr, parseLetterVersion, ofLetterNum, str_lower, contains, int_digits _ hn.1 hn.2, normLetter]
-      simp
-      repeat' split
-      all_goals simp_all
+  · -- a non-empty letter: whatever way the spelling is normalised (`if` chain, `in [...]`, a table look-up), split on
+    -- which of the seven aliases the lower-cased letter is
+    have hne : (c :: cs : Str).isEmpty = false := rfl
+    rcases number with _ | d
+    · simp only [ofOptStr, parseLetterVersion, ofLetterNum, str_lower, int_, truthy_str, hne]
+      generalize lowerStr (c :: cs) = l
+      letter_cases l with int_
+    · simp only [ofOptStr, parseLetterVersion, ofLetterNum, str_lower, int_digits _ hn.1 hn.2, truthy_str, hne]
+      generalize lowerStr (c :: cs) = l
+      letter_cases l with (int_digits _ hn.1 hn.2)
 
 /-! ### the extraction is what the scanner computes
 
